@@ -1,0 +1,20 @@
+//go:build verif
+
+package sqlx
+
+import "time"
+
+// VerifSetSwitches sets the statement-log switches (what DisableStmtLog / DisableLog clear) and
+// the slow-query threshold, and returns a function restoring the previous values.
+// Verification drivers only (build tag verif).
+func VerifSetSwitches(logStmt, logSlow bool, threshold time.Duration) (restore func()) {
+	oldStmt, oldSlow, oldThreshold := logSQL.True(), logSlowSQL.True(), slowThreshold.Load()
+	logSQL.Set(logStmt)
+	logSlowSQL.Set(logSlow)
+	slowThreshold.Set(threshold)
+	return func() {
+		logSQL.Set(oldStmt)
+		logSlowSQL.Set(oldSlow)
+		slowThreshold.Set(oldThreshold)
+	}
+}
